@@ -1,17 +1,19 @@
 """C14 - Deferred-returning tests under AsynchronousDeferredRunTest(ForBrokenTwisted) on the virtual-time reactor.
 
-Input : [timeout, [stop instant, ...], broken, suppress, store, nObs, setUp, body, tearDown]
-  main stage = [[cleanup stage, ...], stage]     (the cleanups it registers at its start, in order)
-  stage      = [[side, ...], beh]
+Input : [timeout, [stop instant, ...], broken, suppress, store, nObs, setUp, body, tearDown] (+ ['real'] = on the real reactor)
+  stage      = [[cleanup stage, ...], [side, ...], beh]    (the cleanups it registers at its start, in order; any depth)
   side       = ['junk', d] | 'logerr' | 'dropfailed' | 'flush' | 'expect'
-  beh        = 'ret' | ['raise', k] | ['fire', d] | ['faild', d, k] | 'never'          k = err | fail | skip
-Trace : [events, stopRequested, raised, [[name, time, observers], ...], leftover, pending, obsRestored, realStops, finalTime]
+  beh        = 'ret' | ['raise', k] | ['fire', d] | ['faild', d, k] | 'never'
+  k          = err | fail | skip | ki (KeyboardInterrupt) | exit (SystemExit)
+Trace : [events, stopRequested, raised, [[name, time, observers], ...], [live, ...], leftover, pending, obsRestored, realStops, finalTime]
 (see TTV/Drv/C14.lean).  The interrupts are `reactor.stop()` calls scheduled before `case.run(result)`.
 """
 import gc, itertools
 from harness.core import Prop
 
 EXC = ['err', 'fail', 'skip']
+UNCLAIMED = ['ki', 'exit']                                  # KeyboardInterrupt, SystemExit
+REAL_UNIT = 0.04                                            # seconds per time unit in the real-reactor scenarios
 
 
 class Sink:
@@ -53,38 +55,57 @@ class C14(Prop):
     id = 'C14'
     budgets = {'quick': 8000, 'thorough': 150000}
     time_limit = {'quick': 40, 'thorough': 600}
-    rule = ('test programs setUp / test / tearDown, each registering 0-2 cleanups, every stage with 0-2 side effects (leave a delayed call, '
-            'log an error, drop a failed Deferred, flush_logged_errors, failing expectThat) and a behaviour (return, raise error/failure/skip, '
-            'Deferred firing or failing after 0-4, never); timeout 0-9 and 0-2 reactor.stop() requests at instants 0-9 so that stages finishing '
-            'exactly at the timeout / at an interrupt are frequent; both runner variants, suppress_twisted_logging and store_twisted_logs '
-            'on/off, 0-2 pre-installed log observers; 60% of the programs are drawn "mostly clean". thorough adds all programs over 7 '
-            'behaviours per main stage x (no cleanup | one cleanup with 7 behaviours) x 3 timeouts. non-trivial = at least one stage returns '
-            'a Deferred or has a side effect; distinct = distinct input S-expression')
+    rule = ('test programs setUp / test / tearDown, each registering 0-2 cleanups which themselves register cleanups (nesting depth up to 3), '
+            'every stage with 0-2 side effects (leave a delayed call, log an error, drop a failed Deferred, flush_logged_errors, failing '
+            'expectThat) and a behaviour (return, raise error/failure/skip/KeyboardInterrupt/SystemExit, Deferred firing or failing with one '
+            'of these after 0-4, never); timeout 0-9 and 0-2 reactor.stop() requests at instants 0-9 so that stages finishing exactly at the '
+            'timeout / at an interrupt are frequent; both runner variants, suppress_twisted_logging and store_twisted_logs on/off, 0-2 '
+            'pre-installed log observers; 63% of the programs are drawn "mostly clean" (half of those with exactly one flaw), 10% are '
+            'zero-delay hop chains (several Deferreds firing at one instant in successive reactor iterations, with the timeout and/or a stop '
+            'request at that instant, 60% broken-Twisted variant). thorough adds all programs over 7 behaviours per main stage x (no cleanup '
+            '| one cleanup with 7 behaviours) x 3 timeouts, 5^5 x 2 programs with a cleanup registered by a cleanup and unclaimed '
+            'exceptions, and scenarios on the REAL Twisted reactor (feature reactor:real; five of them also in quick). non-trivial = at '
+            'least one stage returns a Deferred or has a side effect; distinct = distinct input S-expression')
     assumptions = [
         'PARTIAL w.r.t. the Twisted runtime: Deferred callback chaining, inlineCallbacks, maybeDeferred, the log publisher / observers and '
         'DebugInfo (garbage collection of failed Deferreds) are modelled in TTV/Model/AsyncRun.lean, not verified; the theorems are about the '
         'runner\'s staging and bookkeeping logic',
-        'the reactor is harness/vreactor.py (twisted Clock + run/crash/stop/iterate), shared model TTV/Model/Reactor.lean; no real reactor',
+        'the reactor is harness/vreactor.py (twisted Clock + run/crash/stop/iterate with the iteration semantics of '
+        'ReactorBase.runUntilCurrent: a call scheduled during an iteration waits for the next one), shared model TTV/Model/Reactor.lean',
+        'REAL reactor: 11 smoke scenarios (passing async test, failing Deferred, timeout, unclean reactor, logged error, async cleanups '
+        'LIFO, broken-Twisted variant, interrupt, nested cleanups, KeyboardInterrupt in the test, dropped failed Deferred) run on '
+        'twisted.internet.reactor with 40 ms per time unit and distinct instants at least 2 units apart; a stage is reported at the '
+        'nominal instant of the delayed call that started it, a run in which some call was more than 0.9 unit late is repeated with a '
+        'doubled unit (at most 3 times); the whole trace is then compared with the model exactly as for the virtual reactor (5 scenarios '
+        'in quick, all in thorough); everything else runs on the virtual-time reactor only',
         'CPython reference counting: a dropped failed Deferred is collected (and its DebugInfo recorded) at once',
-        'exceptions outside Exception (KeyboardInterrupt in a stage), nested cleanups registered by cleanups, expected failures are not generated',
+        'of several cleanup exceptions _run_cleanups keeps the last only (modelled as is); expected failures are not generated',
     ]
     manifest = {
-        'text': 'PARTIAL (runner logic proved, Twisted runtime modelled). Theorems for all test programs (setUp / test / tearDown each '
-                'registering any cleanups; every stage with any side effects - leftover delayed call, logged error, dropped failed Deferred, '
-                'flush, failed expectation - and returning / raising / returning a Deferred that fires or fails after any delay / never), all '
-                'timeouts, all sets of interrupt instants, both runner variants, logging suppression and capture on/off: on the discrete-event '
-                'model of AsynchronousDeferredRunTest over the shared virtual-time reactor/Spinner model exactly one outcome is reported between '
-                'startTest and stopTest; the stages that run are a prefix of the path setUp,[test,tearDown],cleanups-LIFO and each starts only '
-                'after its predecessor\'s Deferred fired; the outcome is success iff the whole path ran, its last Deferred fired strictly before '
-                'the timeout and not after a stop request, every stage completed cleanly, no logged error was left unflushed, no failed Deferred '
-                'dropped, no expectation failed and nothing was left scheduled; otherwise-not-in-time gives an error and the result is asked to '
-                'stop exactly for an interrupt; afterwards no delayed call is pending and the log observers are the original ones in order; the '
-                'reactor loop always ends by a crash within the model\'s fuel. Tied to the real runner by a differential check on a virtual-time '
-                'reactor (random programs incl. one-flaw programs and ties at the timeout / interrupt instant, exhaustive small grid).',
+        'text': 'PARTIAL (runner logic proved, Twisted runtime modelled). Theorems for all test programs (setUp / test / tearDown and every '
+                'cleanup registering any cleanups, to any depth; every stage with any side effects - leftover delayed call, logged error, '
+                'dropped failed Deferred, flush, failed expectation - and returning / raising / returning a Deferred that fires or fails after '
+                'any delay / never, the exception being an error, a failure, a skip or KeyboardInterrupt/SystemExit), all timeouts, all sets '
+                'of interrupt instants, both runner variants, logging suppression and capture on/off: on the discrete-event model of '
+                'AsynchronousDeferredRunTest over the shared reactor/Spinner model (reactor iterations as in runUntilCurrent; the result of '
+                'Spinner.run determined before _clean\'s shake-out iterations) exactly one outcome is reported between startTest and stopTest; '
+                'the stages that run are a prefix of the path setUp,[test,tearDown],cleanups-LIFO (cleanups registered by a cleanup right '
+                'after it) and each starts only after its predecessor\'s Deferred fired; the outcome is success iff the whole path ran under '
+                'the running reactor, its last Deferred fired strictly before the timeout, no stop was requested, every stage completed '
+                'cleanly, no logged error was left unflushed, no failed Deferred dropped, no expectation failed and nothing was left '
+                'scheduled; not-in-time gives an error; the result is asked to stop only for an interrupt before the timeout and always '
+                'when one came while the chain was not over; run() re-raises only KeyboardInterrupt/SystemExit, after reporting an error, '
+                'always when setUp/test/tearDown raised one and only if some stage that ran raised one; afterwards no delayed call is '
+                'pending and the log observers are the original ones in order; the reactor loop always ends by a crash within the '
+                'model\'s fuel. Tied to the real runner by a differential check on a virtual-time reactor (random programs incl. one-flaw '
+                'programs, ties at the timeout / interrupt instant, zero-delay hop chains across reactor iterations, exhaustive small '
+                'grids) and by 11 smoke scenarios on the real Twisted reactor.',
         'note': 'partial w.r.t. the Twisted runtime: Deferred chaining, inlineCallbacks/maybeDeferred, the log publisher and observers, '
                 'DebugInfo/GC of failed Deferreds are modelled (TTV/Model/AsyncRun.lean), not verified; trusted: Lean kernel, the models '
-                'TTV/Model/Reactor.lean + AsyncRun.lean, the harness and harness/vreactor.py (no real reactor); KeyboardInterrupt in a stage, '
-                'cleanups registered by cleanups and expected failures are outside the generated domain',
+                'TTV/Model/Reactor.lean + AsyncRun.lean, the harness and harness/vreactor.py; real-reactor coverage = 11 scenarios '
+                '(feature reactor:real: 5 per quick run, 11 per thorough run), everything else on the virtual-time reactor; at the very '
+                'instant at which the chain is over, whether a simultaneous interrupt wins is decided by the reactor\'s call order '
+                '(covered by the correspondence, not by a readable theorem); expected failures are outside the generated domain',
         'technique': 'Lean 4 invariant proofs over a discrete-event model (sorted call queue with dynamic scheduling, fuelled reactor loop, '
                      'potential-function termination argument, chain invariant through suspensions), executable spec shared with a '
                      'differential correspondence check against the real code on a virtual-time reactor',
@@ -96,11 +117,22 @@ class C14(Prop):
         orig = list(pub._observers)
         for o in orig:
             pub.removeObserver(o)
-        markers = []
         try:
-            return self._run(inp, pub, markers)
+            scale = REAL_UNIT
+            for attempt in range(4):
+                info = {}
+                trace = self._run(inp, pub, [], scale, info)
+                if not info.get('disturbed'):
+                    return trace
+                # the real reactor ran a call late by most of a time unit (machine under load), so the nominal scenario was not
+                # realised: once more, with a longer unit
+                gc.collect(1)
+                for o in list(pub._observers):
+                    pub.removeObserver(o)
+                scale *= 2
+            return trace + [['real-reactor-disturbed', info['drift']]]
         except BaseException as e:
-            if isinstance(e, KeyboardInterrupt):
+            if isinstance(e, KeyboardInterrupt) and not getattr(e, 'verif_generated', False):
                 raise
             return ['raised', type(e).__name__]
         finally:
@@ -110,7 +142,7 @@ class C14(Prop):
             for o in orig:
                 pub.addObserver(o)
 
-    def _run(self, inp, pub, markers):
+    def _run(self, inp, pub, markers, scale, info):
         import testtools
         from testtools.matchers import Equals
         from twisted.internet import defer
@@ -118,13 +150,47 @@ class C14(Prop):
         from testtools.twistedsupport import (AsynchronousDeferredRunTest, AsynchronousDeferredRunTestForBrokenTwisted,
                                               flush_logged_errors)
         from harness.vreactor import VirtualReactor
-        T, stops, broken, suppress, store, n_obs, su, bo, td = inp
-        r = VirtualReactor()
+        T, stops, broken, suppress, store, n_obs, su, bo, td = inp[:9]
+        real = len(inp) > 9 and inp[9] == 'real'
+        if real:
+            # the REAL Twisted reactor; delays in units of `scale` seconds.  Every delayed call carries its nominal instant (the nominal
+            # instant at which it was scheduled + its delay); the time reported for a stage is the nominal instant of the call that is
+            # running.  The nominal order is the real order as long as every call runs less than one unit late (distinct instants are
+            # at least 2 units apart in the scenarios); the lateness is measured, a disturbed run is repeated by run_impl.
+            from twisted.internet import reactor as r
+            if r.running or r.getDelayedCalls():
+                return ['real-reactor-not-clean']
+            t0 = r.seconds()
+            clock = {'instant': 0, 'drift': 0.0}
+
+            def now():
+                return clock['instant']
+
+            def later(delay, f, *args):
+                due = clock['instant'] + delay
+
+                def call():
+                    arrive(due)
+                    return f(*args)
+                return r.callLater(delay * scale, call)
+
+            def arrive(instant):
+                clock['drift'] = max(clock['drift'], (r.seconds() - t0) / scale - instant)
+                clock['instant'] = instant
+        else:
+            r = VirtualReactor()
+            scale = 1
+
+            def now():
+                return int(r.seconds())
+
+            def later(delay, f, *args):
+                return r.callLater(delay, f, *args)
         for i in range(n_obs):
             m = (lambda i: (lambda event: None))(i)
             markers.append(m)
             pub.addObserver(m)
-        slog = []
+        slog, live = [], []
         counts = {'scheduled': 0, 'ran': 0}
         numbering = itertools.count()
 
@@ -136,9 +202,15 @@ class C14(Prop):
             counts['scheduled'] += 1
             return call
 
+        def register(case, cleanups):
+            for c in cleanups:
+                case.addCleanup(do, case, ['cleanup', next(numbering)], c)
+
         def do(case, name, stage):
-            sides, beh = stage
-            slog.append([name, int(r.seconds()), len(pub._observers)])
+            cleanups, sides, beh = stage
+            register(case, cleanups)
+            slog.append([name, now(), len(pub._observers)])
+            live.append(bool(r.running))
             for s in sides:
                 if s == 'logerr':
                     log.err(ZeroDivisionError('logged'))
@@ -149,7 +221,7 @@ class C14(Prop):
                 elif s == 'expect':
                     case.expectThat(1, Equals(2))
                 else:
-                    r.callLater(s[1], mine())
+                    later(s[1], mine())
             if beh == 'ret':
                 return None
             if beh == 'never':
@@ -158,48 +230,62 @@ class C14(Prop):
                 raise self._exc(case, beh[1], name)
             d = defer.Deferred()
             if beh[0] == 'fire':
-                r.callLater(beh[1], d.callback, None)
+                later(beh[1], d.callback, None)
             else:
-                r.callLater(beh[1], d.errback, self._exc(case, beh[2], name))
+                later(beh[1], d.errback, self._exc(case, beh[2], name))
             return d
 
-        def register(case, cleanups):
-            for c in cleanups:
-                case.addCleanup(do, case, ['cleanup', next(numbering)], c)
-
         cls = AsynchronousDeferredRunTestForBrokenTwisted if broken else AsynchronousDeferredRunTest
+        if real:
+            class cls(cls):                     # only to learn the instant at which the Spinner's timeout call runs
+                def _make_spinner(self):
+                    sp = super()._make_spinner()
+                    timed_out = sp._timed_out
+
+                    def noting(*args, **kwargs):
+                        arrive(T)
+                        return timed_out(*args, **kwargs)
+                    sp._timed_out = noting
+                    return sp
 
         class T_(testtools.TestCase):
-            run_tests_with = cls.make_factory(reactor=r, timeout=T, suppress_twisted_logging=suppress, store_twisted_logs=store)
+            run_tests_with = cls.make_factory(reactor=r, timeout=T * scale, suppress_twisted_logging=suppress,
+                                              store_twisted_logs=store)
 
             def setUp(self):
                 super().setUp()
-                register(self, su[0])
-                return do(self, 'setUp', su[1])
+                return do(self, 'setUp', su)
 
             def test(self):
-                register(self, bo[0])
-                return do(self, 'body', bo[1])
+                return do(self, 'body', bo)
 
             def tearDown(self):
-                register(self, td[0])
                 try:
-                    return do(self, 'tearDown', td[1])
+                    return do(self, 'tearDown', td)
                 finally:
                     super().tearDown()
 
         for s in stops:
-            r.callLater(s, mine(lambda: r.stop()))
+            later(s, mine(lambda: r.stop()))
         sink = Sink()
         raised = False
         try:
             T_('test').run(sink)
-        except Exception:
-            raised = True
+        except BaseException as e:
+            if isinstance(e, Exception) or getattr(e, 'verif_generated', False):
+                raised = True
+            else:
+                raise
         gc.collect(1)
-        trace = [sink.ev, sink.stopped, raised, slog, counts['scheduled'] - counts['ran'], len(r.getDelayedCalls()),
-                 list(pub._observers) == markers, r.real_stops, int(r.seconds())]
-        if r.errors:
+        trace = [sink.ev, sink.stopped, raised, slog, live, counts['scheduled'] - counts['ran'], len(r.getDelayedCalls()),
+                 list(pub._observers) == markers, 0 if real else r.real_stops, now()]
+        if real:
+            for dc in r.getDelayedCalls():          # leave the process clean whatever happened
+                dc.cancel()
+            arrive(clock['instant'])                # the synchronous tail counts, too
+            info['drift'] = round(clock['drift'], 2)
+            info['disturbed'] = clock['drift'] > 0.9
+        elif r.errors:
             trace.append(['reactor-errors'] + [type(e).__name__ for e in r.errors])
         return trace
 
@@ -209,10 +295,43 @@ class C14(Prop):
             return ValueError(str(name))
         if k == 'fail':
             return case.failureException(str(name))
-        return unittest.SkipTest(str(name))
+        if k == 'skip':
+            return unittest.SkipTest(str(name))
+        e = KeyboardInterrupt() if k == 'ki' else SystemExit(3)
+        e.verif_generated = True
+        return e
+
+    # ----- scenarios on the real reactor (distinct instants at least 2 units apart)
+    @staticmethod
+    def _st(beh, sides=(), cleanups=()):
+        return [list(cleanups), list(sides), beh]
+
+    def real_inputs(self, quick_only):
+        st = self._st
+        scen = [
+            ('passing-async-test', True, [10, [], False, True, True, 1, st(['fire', 2]), st(['fire', 2]), st('ret')]),
+            ('failing-deferred', True, [10, [], False, True, True, 0, st('ret'), st(['faild', 2, 'fail']), st('ret')]),
+            ('timeout', True, [3, [], False, True, True, 0, st('ret'), st('never'), st('ret', cleanups=[st('ret')])]),
+            ('unclean-reactor', True, [6, [], False, True, True, 0, st('ret'), st('ret', sides=[['junk', 8]]), st('ret')]),
+            ('logged-error', True, [6, [], False, False, True, 2, st('ret'), st('ret', sides=['logerr']), st('ret')]),
+            ('async-cleanups-lifo', False, [12, [], False, True, True, 0,
+                                           st('ret', cleanups=[st(['fire', 2]), st(['fire', 2])]), st(['fire', 2]), st('ret')]),
+            ('broken-twisted-variant', False, [10, [], True, True, False, 0, st('ret'), st(['fire', 2], sides=[['junk', 0]]), st('ret')]),
+            ('interrupted', False, [10, [2], False, True, True, 0, st('ret'), st(['fire', 6]), st('ret', cleanups=[st('ret')])]),
+            ('nested-cleanups', False, [12, [], False, True, True, 0,
+                                       st('ret', cleanups=[st('ret'), st(['fire', 2], cleanups=[st(['fire', 2]), st('ret')])]),
+                                       st('ret'), st('ret')]),
+            ('keyboard-interrupt-in-test', False, [10, [], False, True, True, 0, st('ret', cleanups=[st(['fire', 2])]),
+                                                  st(['raise', 'ki']), st('ret')]),
+            ('dropped-failure', False, [6, [], False, True, True, 0, st('ret'), st(['fire', 2], sides=['dropfailed']), st('ret')]),
+        ]
+        return [inp + ['real'] for _, quick, inp in scen if quick or not quick_only]
+
+    def corpus(self):
+        return Prop.corpus(self) + self.real_inputs(True)
 
     # ----- generators
-    def gen_stage(self, rng, clean, T):
+    def gen_stage(self, rng, clean, T, depth=0):
         sides = []
         for _ in range(rng.choice([0, 0, 0, 1] if clean else [0, 1, 1, 2])):
             k = rng.random()
@@ -230,21 +349,58 @@ class C14(Prop):
                 sides.append('expect')
         k = rng.random()
         delay = rng.choice([0, 0, 1, 1, 2, 3, 4])
+        exc = lambda: rng.choice(EXC + EXC + UNCLAIMED)
         if clean:
-            beh = 'ret' if k < 0.45 else ['fire', delay] if k < 0.93 else ['raise', rng.choice(EXC)] if k < 0.96 else \
-                ['faild', delay, rng.choice(EXC)] if k < 0.985 else 'never'
+            beh = 'ret' if k < 0.45 else ['fire', delay] if k < 0.93 else ['raise', exc()] if k < 0.96 else \
+                ['faild', delay, exc()] if k < 0.985 else 'never'
         else:
-            beh = 'ret' if k < 0.3 else ['fire', delay] if k < 0.6 else ['raise', rng.choice(EXC)] if k < 0.75 else \
-                ['faild', delay, rng.choice(EXC)] if k < 0.9 else 'never'
-        return [sides, beh]
+            beh = 'ret' if k < 0.3 else ['fire', delay] if k < 0.6 else ['raise', exc()] if k < 0.75 else \
+                ['faild', delay, exc()] if k < 0.9 else 'never'
+        if depth == 0:
+            n = rng.choice([0, 0, 1, 1, 2])
+        elif depth == 1:
+            n = rng.choice([0, 0, 0, 1, 2])
+        else:
+            n = rng.choice([0, 0, 0, 0, 1]) if depth == 2 else 0
+        return [[self.gen_stage(rng, clean, T, depth + 1) for _ in range(n)], sides, beh]
+
+    def flat(self, st):
+        yield st
+        for c in st[0]:
+            for x in self.flat(c):
+                yield x
+
+    def gen_hops(self, rng):
+        """zero-delay hop chains: several Deferreds firing at the same instant, each scheduled by its predecessor's callback, hence run
+        by successive reactor iterations; a stop request / the timeout at that very instant ends reactor.run() in the middle of the
+        chain, the rest is run - and its result discarded - by the shake-out iterations of Spinner._clean"""
+        d = rng.choice([0, 1, 2, 3])
+
+        def hop():
+            return rng.choice([['fire', 0], ['fire', 0], ['fire', 0], ['faild', 0, rng.choice(EXC)], 'ret'])
+
+        def stage(beh, depth=0):
+            n = rng.choice([0, 0, 1, 2]) if depth < 2 else 0
+            sides = [['junk', 0]] if rng.random() < 0.2 else []
+            return [[stage(hop(), depth + 1) for _ in range(n)], sides, beh]
+
+        first = rng.randrange(3)
+        prog = [stage(['fire', d] if i == first else hop()) for i in range(3)]
+        if rng.random() < 0.25:
+            T, stops = d, rng.choice([[], [], [d]])
+        else:
+            T, stops = d + rng.choice([1, 2, 5]), rng.choice([[d], [d], [d], [d, d + 1], [d, d]])
+        return [T, stops, rng.random() < 0.6, rng.random() < 0.7, rng.random() < 0.7, rng.choice([0, 1])] + prog
 
     def gen(self, rng, tier):
         mode = rng.random()
+        if mode >= 0.9:
+            return self.gen_hops(rng)
         clean = mode < 0.7
         T = rng.choice([0, 1, 2, 3, 4, 5, 6, 7, 9])
-        ms = lambda: [[self.gen_stage(rng, clean, T) for _ in range(rng.choice([0, 0, 1, 1, 2]))], self.gen_stage(rng, clean, T)]
-        prog = [ms(), ms(), ms()]
-        total = sum(s[1][1] for m in prog for s in [m[1]] + m[0] if isinstance(s[1], list) and s[1][0] in ('fire', 'faild'))
+        prog = [self.gen_stage(rng, clean, T) for _ in range(3)]
+        stages = [s for m in prog for s in self.flat(m)]
+        total = sum(s[2][1] for s in stages if isinstance(s[2], list) and s[2][0] in ('fire', 'faild'))
         k = rng.random()
         if k < 0.3:
             T = rng.choice([total, total, total + 1, max(total - 1, 0)])     # ties with the timeout
@@ -255,54 +411,70 @@ class C14(Prop):
                  for _ in range(ns)]
         if 0.35 <= mode < 0.7:
             # an otherwise clean program with exactly one flaw
-            stages = [s for m in prog for s in [m[1]] + m[0]]
             st = rng.choice(stages)
-            flaw = rng.choice(['logerr', 'dropfailed', 'expect', 'junk', 'raise', 'faild', 'never', 'stop', 'logerr-flush-logerr'])
+            flaw = rng.choice(['logerr', 'dropfailed', 'expect', 'junk', 'raise', 'faild', 'never', 'stop', 'logerr-flush-logerr',
+                               'unclaimed', 'unclaimed'])
             if flaw in ('logerr', 'dropfailed', 'expect'):
-                st[0].append(flaw)
+                st[1].append(flaw)
             elif flaw == 'logerr-flush-logerr':
-                st[0].extend(['logerr', 'flush', 'logerr'])
+                st[1].extend(['logerr', 'flush', 'logerr'])
             elif flaw == 'junk':
-                st[0].append(['junk', rng.choice([total + 1, T, T + 1, 9])])
+                st[1].append(['junk', rng.choice([total + 1, T, T + 1, 9])])
             elif flaw == 'raise':
-                st[1] = ['raise', rng.choice(EXC)]
+                st[2] = ['raise', rng.choice(EXC)]
+            elif flaw == 'unclaimed':
+                st[2] = rng.choice([['raise', rng.choice(UNCLAIMED)], ['faild', rng.choice([0, 1, 2]), rng.choice(UNCLAIMED)]])
             elif flaw == 'faild':
-                st[1] = ['faild', rng.choice([0, 1, 2]), rng.choice(EXC)]
+                st[2] = ['faild', rng.choice([0, 1, 2]), rng.choice(EXC)]
             elif flaw == 'never':
-                st[1] = 'never'
+                st[2] = 'never'
             else:
                 stops = stops + [rng.choice([0, max(total - 1, 0), total, total + 1])]
         return [T, stops, rng.random() < 0.3, rng.random() < 0.7, rng.random() < 0.7, rng.choice([0, 1, 2])] + prog
 
     BEHS = ['ret', ['raise', 'err'], ['raise', 'skip'], ['fire', 2], ['fire', 0], ['faild', 2, 'err'], 'never']
+    BEHS2 = ['ret', ['raise', 'ki'], ['raise', 'err'], ['fire', 2], ['faild', 2, 'exit']]
 
     def enumerate(self, tier):
+        for inp in self.real_inputs(False):
+            yield inp
+        st = self._st
         for a, b, c in itertools.product(self.BEHS, repeat=3):
             for cl in [None] + self.BEHS:
                 for T in (1, 4, 9):
-                    su = [[[[], cl]] if cl is not None else [], [[], a]]
-                    yield [T, [], False, True, True, 0, su, [[], [[], b]], [[], [[], c]]]
+                    yield [T, [], False, True, True, 0, st(a, cleanups=[st(cl)] if cl is not None else []), st(b), st(c)]
+        # unclaimed exceptions and cleanups registered by cleanups
+        for a, b, c1, c2, c3 in itertools.product(self.BEHS2, repeat=5):
+            for T in (3, 9):
+                yield [T, [], False, True, True, 0, st(a, cleanups=[st(c1), st(c2, cleanups=[st(c3)])]), st(b), st('ret')]
 
     # ----- measures
     def _stages(self, inp):
-        return [s for m in inp[6:9] for s in [m[1]] + m[0]]
+        return [s for m in inp[6:9] for s in self.flat(m)]
+
+    def depth(self, st):
+        return 1 + max([self.depth(c) for c in st[0]] + [0])
 
     def nontrivial(self, inp, trace):
-        return any(s[0] or (isinstance(s[1], list) and s[1][0] in ('fire', 'faild')) or s[1] == 'never' for s in self._stages(inp))
+        return any(s[1] or (isinstance(s[2], list) and s[2][0] in ('fire', 'faild')) or s[2] == 'never' for s in self._stages(inp))
 
     def features(self, inp, trace):
         T, stops, broken, suppress, store, n_obs = inp[:6]
-        f = ['variant:' + ('broken' if broken else 'plain'), 'suppress=%s' % suppress, 'store=%s' % store, 'observers=%d' % n_obs,
-             'stops=%d' % len(stops), 'cleanups=%d' % min(sum(len(m[0]) for m in inp[6:9]), 4)]
-        for s in self._stages(inp):
-            f.append('beh:' + (s[1] if isinstance(s[1], str) else s[1][0] + ('-' + s[1][-1] if s[1][0] in ('raise', 'faild') else '')))
-            for side in s[0]:
+        stages = self._stages(inp)
+        f = ['reactor:' + ('real' if len(inp) > 9 else 'virtual'), 'variant:' + ('broken' if broken else 'plain'),
+             'suppress=%s' % suppress, 'store=%s' % store, 'observers=%d' % n_obs, 'stops=%d' % len(stops),
+             'cleanups=%d' % min(len(stages) - 3, 6), 'cleanup-nesting=%d' % (max(self.depth(m) for m in inp[6:9]) - 1)]
+        for s in stages:
+            f.append('beh:' + (s[2] if isinstance(s[2], str) else s[2][0] + ('-' + s[2][-1] if s[2][0] in ('raise', 'faild') else '')))
+            for side in s[1]:
                 f.append('side:' + (side if isinstance(side, str) else side[0]))
-        if not isinstance(trace, list) or len(trace) < 9 or trace[0] == 'raised':
+        if not isinstance(trace, list) or len(trace) < 10 or trace[0] == 'raised':
             return f + ['harness-raised']
         ev, stopped, raised, slog = trace[:4]
         f.append('outcome:' + '+'.join(e for e in ev if e not in ('startTest', 'stopTest')))
-        f.append('stages-run=%d' % min(len(slog), 6))
+        f.append('stages-run=%d' % min(len(slog), 8))
+        if raised:
+            f.append('run-raised')
         if stopped:
             f.append('interrupted')
         if slog:
@@ -311,43 +483,52 @@ class C14(Prop):
                 f.append('stage-started-at-timeout')
             if any(s == last for s in stops):
                 f.append('stage-started-at-interrupt')
-        if trace[4]:
+        if not all(trace[4]):
+            f.append('stage-run-by-shake-out-iteration')
+        if trace[5]:
             f.append('leftover-calls')
-        if trace[8] == T and T > 0:
+        if trace[9] == T and T > 0:
             f.append('ended-at-timeout-instant')
         return f
 
     def shrink(self, inp):
-        T, stops, broken, suppress, store, n_obs, su, bo, td = inp
+        tail = inp[9:]
+        T, stops = inp[0], inp[1]
         head = inp[:6]
         for i in range(len(stops)):
             yield [T, stops[:i] + stops[i + 1:]] + inp[2:]
-        if broken:
+        if inp[2]:
             yield [T, stops, False] + inp[3:]
-        if n_obs:
+        if inp[5]:
             yield inp[:5] + [0] + inp[6:]
         if T > 0:
             yield [T - 1] + inp[1:]
-        ms = [su, bo, td]
+        ms = inp[6:9]
         for i, m in enumerate(ms):
-            def put(nm):
-                return head + ms[:i] + [nm] + ms[i + 1:]
-            for j in range(len(m[0])):
-                yield put([m[0][:j] + m[0][j + 1:], m[1]])
-            for cand in self.shrink_stage(m[1]):
-                yield put([m[0], cand])
-            for j, c in enumerate(m[0]):
-                for cand in self.shrink_stage(c):
-                    yield put([m[0][:j] + [cand] + m[0][j + 1:], m[1]])
+            for cand in self.shrink_stage(m):
+                yield head + ms[:i] + [cand] + ms[i + 1:] + tail
 
     def shrink_stage(self, st):
-        sides, beh = st
+        cleanups, sides, beh = st
+        for j in range(len(cleanups)):
+            yield [cleanups[:j] + cleanups[j + 1:], sides, beh]
+            if cleanups[j][0]:                                   # hoist the cleanups it registers
+                yield [cleanups[:j] + cleanups[j][0] + cleanups[j + 1:], sides, beh]
+            for cand in self.shrink_stage(cleanups[j]):
+                yield [cleanups[:j] + [cand] + cleanups[j + 1:], sides, beh]
         for j in range(len(sides)):
-            yield [sides[:j] + sides[j + 1:], beh]
+            yield [cleanups, sides[:j] + sides[j + 1:], beh]
         if beh != 'ret':
-            yield [sides, 'ret']
+            yield [cleanups, sides, 'ret']
         if isinstance(beh, list) and beh[0] in ('fire', 'faild') and beh[1] > 0:
-            yield [sides, [beh[0], beh[1] - 1] + beh[2:]]
+            yield [cleanups, sides, [beh[0], beh[1] - 1] + beh[2:]]
+        if isinstance(beh, list) and beh[0] == 'faild':
+            yield [cleanups, sides, ['raise', beh[2]]]
+            yield [cleanups, sides, ['fire', beh[1]]]
+        if isinstance(beh, list) and beh[-1] == 'exit':
+            yield [cleanups, sides, beh[:-1] + ['ki']]
+        if isinstance(beh, list) and beh[-1] in ('fail', 'skip'):
+            yield [cleanups, sides, beh[:-1] + ['err']]
 
 
 PROP = C14()
